@@ -349,3 +349,21 @@ def gen_safe_spec(rng, unit_info, **kw):
         if spec_is_safe(sp, unit_info):
             return sp
     raise RuntimeError("could not draw a safe spec")
+
+
+SOURCE_POOL = [None, None, ["user data", None], ["Hardware reference database", "https://hardware-db.example.org/servers/web-frontend"],
+               ["Hardware reference database", "https://hardware-db.example.org/servers/database"],
+               ["Internal measurement", "https://wiki.example.org/measurements#2024"], ["Internal measurement", None]]
+
+
+def with_random_sources(spec, rng):
+    """the same model with inputs attributed to a handful of sources, some sharing a name but not a link"""
+    out = copy.deepcopy(spec)
+    for kind in ["storages", "servers", "jobs", "steps", "devices", "networks", "countries"]:
+        for o in out[kind].values():
+            for p, v in o.items():
+                if isinstance(v, dict) and "m" in v:
+                    src = rng.choice(SOURCE_POOL)
+                    if src:
+                        v["src"] = src
+    return out
